@@ -70,6 +70,7 @@ type PkgContracts struct {
 	Pure     map[string]bool // package-level function variables assumed pure and non-nil
 	Lemmas   []*Lemma
 	ChanInvs []*ChanInv
+	Relies   map[string][]*Clause
 }
 
 // ChanInv: every value v sent on a channel ch whose element type is Elem satisfies Clause.
@@ -143,7 +144,7 @@ func ParseContracts(dir, pkgPath string) (*PkgContracts, error) {
 	if err != nil {
 		return nil, err
 	}
-	pc := &PkgContracts{PkgPath: pkgPath, Dir: dir, File: file, Funcs: map[string]*FuncContract{}, TypeInvs: map[string][]*Clause{}, TypeAssumes: map[string][]*Clause{}, Ghosts: map[string]*GhostFunc{}, Closed: map[string]bool{}, Defines: map[string]*Define{}, Pure: map[string]bool{}}
+	pc := &PkgContracts{PkgPath: pkgPath, Dir: dir, File: file, Funcs: map[string]*FuncContract{}, TypeInvs: map[string][]*Clause{}, TypeAssumes: map[string][]*Clause{}, Ghosts: map[string]*GhostFunc{}, Closed: map[string]bool{}, Defines: map[string]*Define{}, Pure: map[string]bool{}, Relies: map[string][]*Clause{}}
 	var cur *FuncContract
 	var curLemma *Lemma
 	lines := strings.Split(string(data), "\n")
@@ -323,6 +324,21 @@ func ParseContracts(dir, pkgPath string) (*PkgContracts, error) {
 				c.Props = cur.Props
 			}
 			cur.Loops[n] = append(cur.Loops[n], c)
+		case "rely":
+			// rely T: two-state predicate that every other goroutine preserves on objects of type T
+			// (assumed across Cond.Wait, where the lock is released; the matching guarantee is
+			// stated as contracts/asserts on the functions that write the fields)
+			i := strings.Index(rest, ":")
+			if i < 0 {
+				return nil, fmt.Errorf("%s:%d: bad rely", file, l.no)
+			}
+			c, err := mkClause(kw, props, strings.TrimSpace(rest[i+1:]), l.no)
+			if err != nil {
+				return nil, err
+			}
+			tn := strings.TrimSpace(rest[:i])
+			pc.Relies[tn] = append(pc.Relies[tn], c)
+			cur = nil
 		case "chanopen":
 			// chanopen <elem type>: P(ch)  -- channels satisfying P are never closed
 			i := strings.Index(rest, ":")
